@@ -66,6 +66,7 @@ class Monitors(Listener):
         self.admit = {}                   # obs name -> snapshot at admission
         self.emits = []                   # (time, actor, obs, event, resource) as emitted
         self.reservation_sizes = {}       # obs -> size at creation
+        self.ingested_so_far = {}         # obs -> total_data_size after the previous block
         self.rowcheck = 0
         self.blocks = 0
         self.tier_moves = 0
@@ -364,6 +365,13 @@ class Monitors(Listener):
                 fr(hot.current_capacity), fr(hot.total_capacity), fr(committed)),
                 sig="hot-free-space-out-of-range" + (":overcommit" if over else "") +
                     (":admissions-saw-room" if saw_room else ""))
+        # C07: nothing is taken in faster than the hot tier's maximum ingest rate (it is refused with an error)
+        for o in tel.observations:
+            prev = self.ingested_so_far.get(o.name, 0)
+            if o.total_data_size - prev > hot.max_ingest_data_rate:
+                self.viol("C07", "ingest-above-max-rate", "%s: %s taken in one block, maximum ingest rate %s" % (
+                    o.name, fr(o.total_data_size - prev), fr(hot.max_ingest_data_rate)))
+            self.ingested_so_far[o.name] = o.total_data_size
         if cold.current_capacity < 0 or cold.current_capacity > cold.total_capacity:
             self.viol("C07", "cold-free-space-out-of-range", "%s of %s" % (fr(cold.current_capacity), fr(cold.total_capacity)))
         if self.tier_moves == 0:
@@ -395,6 +403,13 @@ class Monitors(Listener):
                     if len(l) > hi or len(l) < lo or len(l) < sk.get("min", 1):
                         self.viol("C09", "reservation-size-out-of-bounds",
                                   "%s got %d machines, allowed [%s,%s] min %s" % (name, len(l), lo, hi, sk.get("min", 1)))
+                # ... and it neither grows nor shrinks until it is released: idle part + machines its tasks hold
+                busy = [t for t in cv["running"] if t in self.alloc and not self.alloc[t][3] and self.alloc[t][2] == name]
+                held = len(l) + len(busy)
+                if held != self.reservation_sizes[name]:
+                    self.viol("C09", "reservation-changed-size",
+                              "%s holds %d machines (%d idle + %d busy), reserved %d" % (
+                                  name, held, len(l), len(busy), self.reservation_sizes[name]))
         # C19 queries
         if self.want("C19"):
             truth_cluster = (not cv["running"]) and (not cv["occupied"]) and (not cv["ingest"])
@@ -579,6 +594,7 @@ class Monitors(Listener):
         elif rec["exception"] is None and not rec.get("nonterminated"):
             # a paused / partial run: hand-over completeness can still be judged
             self.check_log_vs_emitted(rec)
+        self.check_events_prefix()
         out = rec.get("out")
         if out is not None and rec["exception"] is None:
             for tid, tr in out.get("task_truth", {}).items():
@@ -681,6 +697,37 @@ class Monitors(Listener):
                 self.viol("C13", "buffer-added-not-at-start", "%s %s vs %s" % (o.name, tt[("added", "buffer")], st))
             if tt[("removed", "buffer")] != tt[("stopped", "allocation")]:
                 self.viol("C13", "buffer-removed-not-at-allocation-stopped", o.name)
+
+    def check_events_prefix(self):
+        """C13 clauses that hold of every prefix of a run (also of a run that raised or did not terminate):
+        each life-cycle event at most once per observation, and none without its causal predecessor."""
+        tel = self.sim.instrument
+        for o in tel.observations:
+            tt = {}
+            for (t, name, ev, res) in self.emits:
+                if name == o.name:
+                    tt.setdefault((ev, res), []).append(F(t))
+            for k, ts in tt.items():
+                if len(ts) > 1 and k[1] in ("telescope", "buffer", "queue", "allocation") and k[0] != "transfer":
+                    self.viol("C13", "lifecycle-event-repeated", "%s %s %s: %s" % (o.name, k[1], k[0], ts))
+            first = lambda ev, res: (tt.get((ev, res)) or [None])[0]
+            st = first("started", "telescope")
+            preds = [(("finished", "telescope"), ("started", "telescope")),
+                     (("added", "buffer"), ("started", "telescope")),
+                     (("added", "queue"), ("started", "telescope")),
+                     (("started", "allocation"), ("added", "queue")),
+                     (("stopped", "allocation"), ("started", "allocation")),
+                     (("removed", "queue"), ("stopped", "allocation")),
+                     (("removed", "buffer"), ("stopped", "allocation"))]
+            for (e, p) in preds:
+                te, tp = first(*e), first(*p)
+                if te is not None and (tp is None or tp > te):
+                    self.viol("C13", "event-without-predecessor",
+                              "%s: %s %s at %s, but %s %s at %s" % (o.name, e[1], e[0], te, p[1], p[0], tp))
+            fin = first("finished", "telescope")
+            if fin is not None and st is not None and fin != st + F(o.duration):
+                self.viol("C13", "finished-not-started-plus-duration",
+                          "%s started %s finished %s duration %s" % (o.name, st, fin, fr(o.duration)))
 
     # ------------------------------------------------------------------ C15
     def check_delay_status(self, rec):
